@@ -319,6 +319,8 @@ def caption_sets(thorough):
         "fr": [(2 * S, 3 * S, ["c"], None, None), (3 * S, 4 * S + 500000, ["d"], None, None), (6 * S, 7 * S, ["e"], None, None)]}}
     yield "concurrent captions", {"langs": {"en-US": [(S, 2 * S, ["up"], L1, None), (S, 2 * S, ["down"], L2, None),
                                                       (3 * S, 4 * S, ["next"], None, None)]}}
+    yield "one language code a prefix of another", {"langs": {"en-US": [(3 * S, 4 * S, ["american"], None, None)],
+                                                              "en": [(S, 2 * S, ["plain"], None, None), (5 * S, 6 * S, ["two"], None, None)]}}
     yield "language code with metacharacters", {"langs": {"en\"<&>": [(S, 2 * S, ["hello"], None, None)]}}
     # layouts at the three levels
     yield "language layout", {"langs": {"en-US": [(S, 2 * S, ["hello"], None, None)]}, "lang_layout": {"en-US": L1}}
@@ -373,7 +375,7 @@ def colliding_layouts(W):
 def explore(ctx, thorough):
     W = World(ctx)
     bad = {k: [] for k in ("wellformed", "structure", "refs", "times", "text", "italics", "layout", "langs", "unchanged",
-                           "sami_syncs", "sami_text")}
+                           "sami_syncs", "sami_text", "sami_langs")}
     n = 0
     fns = {}
     sets = list(caption_sets(thorough))
@@ -556,6 +558,13 @@ def _judge_sami(spec, parsed, doc, case, bad):
     if parsed.problems:
         bad["sami_syncs"].append(dict(case, problems=parsed.problems[:3]))
         return
+    # every language has a class rule of its own in the stylesheet that declares exactly that language
+    sheet = {m.group(1): dict((k.strip().lower(), v.strip()) for k, _, v in (d.partition(":") for d in m.group(2).split(";")) if k.strip())
+             for m in re.finditer(r"\.([^\s{}]+)\s*\{([^{}]*)\}", doc)}
+    for lang in spec["langs"]:
+        if re.fullmatch(r"[A-Za-z0-9-]+", lang) and not any(r_.get("lang") == lang for r_ in sheet.values()):
+            bad["sami_langs"].append(dict(case, language=lang, why="no class rule of the stylesheet declares this language",
+                                          rules={k: v.get("lang") for k, v in sheet.items()}))
     starts = [s for s, _ in parsed.syncs]
     overlapping = any(a[1] > b[0] for caps in spec["langs"].values() for a, b in zip(caps, caps[1:]))
     if overlapping:
@@ -612,6 +621,7 @@ TEXTS_BY_KEY = {
     "sami_syncs": "SAMI: one sync per start, a blank sync at the end unless the language's next cue starts there, none after "
                   "the last cue; syncs in time order",
     "sami_text": "every SAMI cue reads back (HTML tokenizer) as the caption's lines, in order",
+    "sami_langs": "SAMI: every language has a class rule in the stylesheet that declares it",
 }
 
 
